@@ -11,13 +11,22 @@
 (* the reply.  One action (Handle) per iteration of a receive loop: the    *)
 (* loop body reads one datagram, drops it at the first failing stage or    *)
 (* writes exactly one datagram, and shares nothing with other iterations   *)
-(* that matters here (the timestamp store is ServerStore.tla).             *)
+(* except the server's timestamp store (core/server/server.go), which      *)
+(* handleRequest reads and writes: the reply is computed from the datagram *)
+(* AND the store.  The store is a component of the listener's state here,  *)
+(* abstracted to what handleRequest / updateTXTimestamp branch on (section *)
+(* 3b; the exact store, heap and timestamps are ServerStore.tla).  The     *)
+(* other component is how the listener was started (section 3a): the       *)
+(* interface name decides which timestamps the kernel attaches to          *)
+(* datagrams, and the loop branches on their absence.                      *)
 (*                                                                         *)
 (* Layout (kept so that other properties can extend the module):           *)
 (*   1. datagrams, payloads, trailer classes (one field per parsing        *)
 (*      decision of the code)                                              *)
 (*   2. SCION addressing and path reversal                                 *)
 (*   3. the pipeline: stage operators in code order, DropStage             *)
+(*   3a. listener configuration and ancillary data                         *)
+(*   3b. the timestamp store as handleRequest sees it                      *)
 (*   4. reply construction                                                 *)
 (*   5. system: environment composing datagrams, listeners, network        *)
 (*   6. PROPERTY SECTION (C09)                                             *)
@@ -32,6 +41,9 @@ CONSTANTS Servers,    \* listener hosts, e.g. {"A"} or {"A", "B"}
           Vias,       \* <<transport, path kind>> pairs the environment uses
           MaxInject,  \* number of datagrams the environment sends
           Spoof,      \* TRUE: the environment may forge another server's source address
+          Confs,      \* listener configurations the environment starts servers in (subset of ConfNames)
+          Stores,     \* store classes the environment brings about (subset of StoreClassNames)
+          Ancs,       \* ancillary-data classes the environment's kernel produces (subset of AncNames)
           RestoreAtTop \* TRUE (the code): every loop iteration starts with buf = buf[:cap(buf)];
                       \* FALSE: the variant that restores the buffer only after a served request
                       \* (kept to show that HistoryIndependence is not vacuous)
@@ -181,8 +193,17 @@ SwapSc(sc) ==
 PathLen(p) == IF p.kind = "empty" THEN 0 ELSE 4 + 8 * Len(p.segs) + 12 * SumLen(p.segs)
 
 \* a datagram on the wire: transport, underlay source and destination, SCION
-\* header (NoSc over IP), NTP payload
-Dgram(tp, src, dst, sc, pl) == [tp |-> tp, src |-> src, dst |-> dst, sc |-> sc, pl |-> pl]
+\* header (NoSc over IP), NTP payload, and two facts about it that the
+\* listener's loop branches on:
+\*   il   its origin timestamp field is the receive timestamp of an earlier
+\*        reply to this client and its receive and transmit fields differ
+\*        (an interleaved-mode request; whether the server still has that
+\*        exchange on record is the store's business)
+\*   anc  what the receiving kernel attaches to it: "ts" a receive-timestamp
+\*        control message | "none" no such control message (not part of the
+\*        datagram proper: see Wire)
+Dgram(tp, src, dst, sc, pl) == [tp |-> tp, src |-> src, dst |-> dst, sc |-> sc, pl |-> pl, il |-> FALSE, anc |-> "ts"]
+Wire(d) == [d EXCEPT !.anc = "ts"]
 \* size of the UDP datagram the listener's socket receives
 WireLen(d) ==
   IF d.tp = "ip" THEN d.pl.len
@@ -226,17 +247,148 @@ ValidateRequest(b) ==
      /\ ~((vn = 1 /\ mode # 0) \/ (vn # 1 /\ mode # 3))
 StValidate(d) == ValidateRequest(d.pl.b0)
 
-\* with `avail` bytes of receive buffer
-DropStageB(s, d, avail) ==
+\* rxt, err := udp.TimestampFromOOBData(oob); if err != nil { rxt = timebase.Now() }:
+\* where the receive time comes from.  Both branches go on (TRUE = the stage
+\* lets the datagram pass, whatever accompanies it).
+RxTimeSource(anc) == IF anc = "ts" THEN "kernel" ELSE "clock"
+StStamp(anc) == RxTimeSource(anc) \in {"kernel", "clock"}
+
+\* with `avail` bytes of receive buffer and ancillary data `anc`
+DropStageB(s, d, avail, anc) ==
   IF ~StRead(d, avail) THEN "read"
+  ELSE IF ~StStamp(anc) THEN "rxtimestamp"
   ELSE IF ~StScion(s, d) THEN "scion"
   ELSE IF ~StNtpDecode(d) THEN "ntp.DecodePacket"
   ELSE IF ~StNts(d) THEN NtsOutcome(d.pl)
   ELSE IF ~StValidate(d) THEN "ntp.ValidateRequest"
   ELSE "none"
 \* with the whole buffer (what the code's loop guarantees at every iteration)
-DropStage(s, d) == DropStageB(s, d, BufCap(d.tp))
+\* and a receive timestamp from the kernel
+DropStage(s, d) == DropStageB(s, d, BufCap(d.tp), "ts")
 Accepts(s, d) == DropStage(s, d) = "none"
+
+(***************************************************************************)
+(* 3a. How a listener was started, and what then accompanies a datagram.   *)
+(*   StartIPServer / StartSCIONServer(.., localHost, ..) pass localHost.Zone*)
+(*   as the interface name to udp.EnableTimestamping:                       *)
+(*   "sw"  iface = "": SOF_TIMESTAMPING_{RX,TX}_SOFTWARE. Every datagram    *)
+(*         arrives with a receive-timestamp control message (the kernel may *)
+(*         sporadically omit it: anc = "none"); the transmit timestamp of   *)
+(*         the reply is read from the error queue.                          *)
+(*   "hw"  iface named: SOF_TIMESTAMPING_{RX,TX}_HARDWARE only (the errors  *)
+(*         of initNetworkInterface are swallowed). On an interface without  *)
+(*         hardware clock no datagram carries a receive timestamp and no    *)
+(*         transmit timestamp ever appears on the error queue.              *)
+(*   Control data is never truncated (MSG_CTRUNC would be `flags != 0`):    *)
+(*   oob has room for udp.TimestampLen() bytes and the timestamp is the     *)
+(*   only control message the socket options of the listener enable.        *)
+(***************************************************************************)
+ConfNames == {"sw", "hw"}
+AncNames  == {"ts", "none"}
+\* what the loop of a listener in configuration cf finds next to a datagram
+\* that the kernel would hand over with `anc`
+AncAt(cf, anc) == IF cf = "hw" THEN "none" ELSE anc
+\* udp.ReadTXTimestamp after the reply has been written fails
+TxLost(cf) == cf = "hw"
+
+(***************************************************************************)
+(* 3b. The timestamp store (tss, tssQ of server.go; one per process, shared *)
+(*   by all listeners of a server) as far as handleRequest and              *)
+(*   updateTXTimestamp branch on it:                                        *)
+(*     rec[c]  number of exchanges on record for client c (0: no item)      *)
+(*     lru     the clients of the model that have an item, least recently   *)
+(*             active first (the order of tssQ among them)                  *)
+(*     fill    the items of clients outside the model ("fillers"):          *)
+(*             "none" | "old": their newest receive times lie before every  *)
+(*             request of the model (they are evicted first; 2^20 of them:  *)
+(*             an inexhaustible supply) | "fresh": after every request of   *)
+(*             the model (tssQ[0].qval.After(rxt64): never evicted)         *)
+(*     free    tssCap - len(tss), capped at FreeMany                        *)
+(*   Client identity: the source address (IP), "<IA>,<host address>" (SCION)*)
+(***************************************************************************)
+ItemCap  == 8                   \* tssItemCap
+FreeMany == 4                   \* "more free slots than the model ever uses"
+ScID(h, t) == IAof(h) \o "," \o t \o "," \o h
+CID(d) == IF d.tp = "ip" THEN d.src.h ELSE ScID(d.sc.sh, d.sc.st)
+ClientIDs == Hosts \cup {ScID(h, t) : h \in Hosts, t \in {"v4", "v6"}}
+
+EmptyStore == [rec |-> [x \in ClientIDs |-> 0], lru |-> << >>, fill |-> "none", free |-> FreeMany]
+
+\* Store classes: the state of the store, relative to the client of the
+\* arriving request, that other clients' traffic and this client's earlier
+\* exchanges have brought about.
+KNames  == <<"k1", "k2", "k3", "k4", "k5", "k6", "k7", "k8">>
+IlNames == <<"il1", "il2", "il3", "il4", "il5", "il6", "il7", "il8">>
+StoreClassNames == {"asis", "new", "full_evict", "full_stuck", "full_k3"}
+                   \cup {KNames[i] : i \in 1 .. ItemCap} \cup {IlNames[i] : i \in 1 .. ItemCap}
+\*   k     exchanges of this client on record
+\*   il    the request refers to one of them (interleaved mode)
+\*   full  len(tss) = tssCap;  fill: see above
+Class(k, il, full, fill) == [k |-> k, il |-> il, full |-> full, fill |-> fill]
+ClassOf(n) ==
+  IF \E i \in 1 .. ItemCap : KNames[i] = n
+  THEN Class(CHOOSE i \in 1 .. ItemCap : KNames[i] = n, FALSE, FALSE, "none")
+  ELSE IF \E i \in 1 .. ItemCap : IlNames[i] = n
+  THEN Class(CHOOSE i \in 1 .. ItemCap : IlNames[i] = n, TRUE, FALSE, "none")
+  ELSE CASE n = "full_evict" -> Class(0, FALSE, TRUE, "old")     \* new client, store full, oldest item evictable
+         [] n = "full_stuck" -> Class(0, FALSE, TRUE, "fresh")   \* new client, store full, nothing evictable
+         [] n = "full_k3"    -> Class(3, FALSE, TRUE, "fresh")   \* known client, store full
+         [] OTHER            -> Class(0, FALSE, FALSE, "none")   \* "new" (and "asis": store left as it is)
+StoreInClass(n, c) ==
+  LET cl == ClassOf(n)
+  IN [rec  |-> [x \in ClientIDs |-> IF x = c THEN cl.k ELSE 0],
+      lru  |-> IF cl.k > 0 THEN <<c>> ELSE << >>,
+      fill |-> cl.fill,
+      free |-> IF cl.full THEN 0 ELSE FreeMany]
+
+Without(q, c) == SelectSeq(q, LAMBDA x : x # c)
+\* handleRequest on the store, for an accepted request d of client c
+\*   known:   `tssi, ok := tss[clientID]`
+\*   unknown: `if len(tss) == tssCap && !tssQ[0].qval.After(rxt64)` evict the
+\*            least recently active item; `if len(tss) == tssCap { tssi = nil }`
+\*            (served without a record) `else` create the item
+Known(st, c)     == st.rec[c] > 0
+Full(st)         == st.free = 0
+Victim(st)       == IF st.fill = "old" THEN "filler" ELSE IF st.lru # << >> THEN Head(st.lru) ELSE "nobody"
+Evicts(st, c)    == ~Known(st, c) /\ Full(st) /\ Victim(st) # "nobody"
+Stateless(st, c) == ~Known(st, c) /\ Full(st) /\ Victim(st) = "nobody"
+\* `req.ReceiveTime != req.TransmitTime && o != -1`: reply from the record
+Interleaved(st, d) == d.il /\ Known(st, CID(d))
+\* which field of the request the reply's origin timestamp repeats
+ReplyOrigin(st, d) == IF Interleaved(st, d) THEN "rx" ELSE "tx"
+
+HandleStore(st, d) ==
+  LET c    == CID(d)
+      k    == st.rec[c]
+      v    == Victim(st)
+      ev   == Evicts(st, c)
+      rec1 == IF ev /\ v # "filler" THEN [st.rec EXCEPT ![v] = 0] ELSE st.rec
+      lru1 == IF ev /\ v # "filler" THEN Tail(st.lru) ELSE st.lru
+      \* interleaved: the record of the exchange referred to is overwritten;
+      \* item full: the oldest pair is overwritten; otherwise a pair is added
+      k1   == IF ~Known(st, c) THEN 1 ELSE IF Interleaved(st, d) \/ k = ItemCap THEN k ELSE k + 1
+  IN IF Stateless(st, c) THEN st
+     ELSE [rec  |-> [rec1 EXCEPT ![c] = k1],
+           lru  |-> Append(Without(lru1, c), c),          \* new maximum receive time: heap.Fix / heap.Push
+           fill |-> st.fill,
+           free |-> IF ~Known(st, c) /\ ~Full(st) THEN st.free - 1 ELSE st.free]
+\* updateTXTimestamp(clientID, rxt, &txt1) with txt1 = txt0 (no transmit
+\* timestamp could be read): the pair recorded by handleRequest is removed
+\* again, and the item with it if it was the only pair.  st0: the store
+\* before handleRequest (the client's rank in tssQ falls back to where it was).
+UpdateLost(st0, st, d) ==
+  LET c  == CID(d)
+      k2 == st.rec[c] - 1
+      v  == Victim(st0)
+      lru0 == IF Evicts(st0, c) /\ v # "filler" THEN Tail(st0.lru) ELSE st0.lru
+  IN IF Stateless(st0, c) THEN st
+     ELSE [rec  |-> [st.rec EXCEPT ![c] = k2],
+           lru  |-> IF k2 = 0 THEN Without(st.lru, c) ELSE lru0,
+           fill |-> st.fill,
+           free |-> IF k2 = 0 /\ st.free < FreeMany THEN st.free + 1 ELSE st.free]
+\* one served request: handleRequest, write, updateTXTimestamp
+ServeStore(st, d, cf) ==
+  LET h == HandleStore(st, d) IN IF TxLost(cf) THEN UpdateLost(st, h, d) ELSE h
 
 (***************************************************************************)
 (* 4. Reply construction (handleRequest + the encode/serialize/write tail) *)
@@ -254,9 +406,9 @@ ReplyPl(pl) == [b0 |-> ReplyB0, len |-> RespLen(pl),
 \* listener's socket to the underlay source of the request
 Reply(s, d) ==
   Dgram(d.tp, ListenEP(s, d.tp), d.src, IF d.tp = "scion" THEN SwapSc(d.sc) ELSE NoSc, ReplyPl(d.pl))
-RepliesB(s, d, avail) == IF DropStageB(s, d, avail) = "none" THEN <<Reply(s, d)>> ELSE << >>
+RepliesB(s, d, avail, anc) == IF DropStageB(s, d, avail, anc) = "none" THEN <<Reply(s, d)>> ELSE << >>
 \* the reply decision as a function of the datagram alone
-Replies(s, d) == RepliesB(s, d, BufCap(d.tp))
+Replies(s, d) == RepliesB(s, d, BufCap(d.tp), "ts")
 
 (***************************************************************************)
 (* 5. System: an environment that composes datagrams field by field (one   *)
@@ -268,29 +420,40 @@ VARIABLES draft,   \* the datagram being composed by the environment
           hist,    \* observation: one event [srv, d, out] per loop iteration
           nsent,   \* datagrams ever put on the network (by anyone)
           ninj,    \* datagrams the environment has sent
-          blen     \* [listener, transport] -> len(buf) of the receive loop when it
+          blen,    \* [listener, transport] -> len(buf) of the receive loop when it
                    \* comes back to the top (one socket per listener and transport;
                    \* the 8 SO_REUSEPORT sockets are independent copies of this)
-vars == <<draft, net, hist, nsent, ninj, blen>>
+          conf,    \* [listener] -> how its receive loops were started (section 3a)
+          store    \* [listener] -> its timestamp store (section 3b)
+vars == <<draft, net, hist, nsent, ninj, blen, conf, store>>
 
 Idle == [stage |-> "idle", b0 |-> 0, len |-> 0, tr |-> "none", tp |-> "ip", pk |-> "empty", fam |-> "44",
-         from |-> Client, to |-> Client]
+         from |-> Client, to |-> Client, sc |-> "asis", anc |-> "ts"]
 
 Init == /\ draft = Idle /\ net = << >> /\ hist = << >> /\ nsent = 0 /\ ninj = 0
         /\ blen = [x \in Servers \X {"ip", "scion"} |-> BufCap(x[2])]
+        /\ conf \in [Servers -> Confs]
+        /\ store = [s \in Servers |-> EmptyStore]
 
-ChooseB0 ==
+\* first the circumstances under which the datagram will arrive: the class
+\* the addressee's store is in by then, and what the addressee's kernel
+\* attaches to the datagram
+ChooseEnv ==
   /\ draft.stage = "idle" /\ ninj < MaxInject
-  /\ \E b \in B0s : draft' = [Idle EXCEPT !.stage = "b0", !.b0 = b]
-  /\ UNCHANGED <<net, hist, nsent, ninj, blen>>
+  /\ \E c \in Stores, a \in Ancs : draft' = [Idle EXCEPT !.stage = "env", !.sc = c, !.anc = a]
+  /\ UNCHANGED <<net, hist, nsent, ninj, blen, conf, store>>
+ChooseB0 ==
+  /\ draft.stage = "env"
+  /\ \E b \in B0s : draft' = [draft EXCEPT !.stage = "b0", !.b0 = b]
+  /\ UNCHANGED <<net, hist, nsent, ninj, blen, conf, store>>
 ChooseShape ==
   /\ draft.stage = "b0"
   /\ \E sh \in Shapes : draft' = [draft EXCEPT !.stage = "shape", !.len = sh[1], !.tr = sh[2]]
-  /\ UNCHANGED <<net, hist, nsent, ninj, blen>>
+  /\ UNCHANGED <<net, hist, nsent, ninj, blen, conf, store>>
 ChooseVia ==
   /\ draft.stage = "shape"
   /\ \E v \in Vias : draft' = [draft EXCEPT !.stage = "via", !.tp = v[1], !.pk = v[2], !.fam = v[3]]
-  /\ UNCHANGED <<net, hist, nsent, ninj, blen>>
+  /\ UNCHANGED <<net, hist, nsent, ninj, blen, conf, store>>
 \* destination: some listener; source: the client's own address or, when
 \* spoofing, the address of another listener
 ChooseAddr ==
@@ -298,36 +461,45 @@ ChooseAddr ==
   /\ \E t \in Servers :
        \E f \in {Client} \cup (IF Spoof THEN Servers \ {t} ELSE {}) :
           draft' = [draft EXCEPT !.stage = "addr", !.from = f, !.to = t]
-  /\ UNCHANGED <<net, hist, nsent, ninj, blen>>
+  /\ UNCHANGED <<net, hist, nsent, ninj, blen, conf, store>>
 
 DraftDgram(x) ==
   LET srcEP == IF x.from = Client THEN ClientEP ELSE ListenEP(x.from, x.tp)
       dstEP == ListenEP(x.to, x.tp)
-  IN Dgram(x.tp, srcEP, dstEP,
-           IF x.tp = "scion" THEN Sc(x.from, srcEP.p, x.to, dstEP.p, PathOf(x.pk), x.fam) ELSE NoSc,
-           Payload(x.b0, x.len, x.tr))
+  IN [Dgram(x.tp, srcEP, dstEP,
+            IF x.tp = "scion" THEN Sc(x.from, srcEP.p, x.to, dstEP.p, PathOf(x.pk), x.fam) ELSE NoSc,
+            Payload(x.b0, x.len, x.tr))
+      EXCEPT !.il = ClassOf(x.sc).il, !.anc = x.anc]
 
+\* the datagram goes on the wire; by the time it arrives, the requests of
+\* other clients and this client's earlier exchanges have put the
+\* addressee's store into class x.sc ("asis": they have not touched it)
 Inject ==
   /\ draft.stage = "addr"
   /\ net' = Append(net, DraftDgram(draft))
+  /\ store' = IF draft.sc = "asis" THEN store
+              ELSE [store EXCEPT ![draft.to] = StoreInClass(draft.sc, CID(DraftDgram(draft)))]
   /\ draft' = Idle
   /\ nsent' = nsent + 1 /\ ninj' = ninj + 1
-  /\ UNCHANGED <<hist, blen>>
+  /\ UNCHANGED <<hist, blen, conf>>
 
 RemoveAt(q, i) == SubSeq(q, 1, i - 1) \o SubSeq(q, i + 1, Len(q))
 
 \* one iteration of a receive loop of listener s:
 \*   buf = buf[:cap(buf)]                 (RestoreAtTop)
 \*   n, _, flags, src := ReadMsgUDPAddrPort(buf, oob); flags != 0 => continue
-\*   buf = buf[:n]; ... stages ...; IP: EncodePacket(&buf, ..) re-slices buf to the reply
-\*   write
+\*   rxt from the control message or from the clock
+\*   buf = buf[:n]; ... stages ...; handleRequest (store); IP: EncodePacket(&buf, ..)
+\*   re-slices buf to the reply
+\*   write; updateTXTimestamp (store)
 Handle(s) ==
   \E i \in DOMAIN net :
     /\ net[i].dst = ListenEP(s, net[i].tp)
     /\ LET d     == net[i]
            cap   == BufCap(d.tp)
            avail == IF RestoreAtTop THEN cap ELSE blen[<<s, d.tp>>]
-           out   == RepliesB(s, d, avail)
+           anc   == AncAt(conf[s], d.anc)
+           out   == RepliesB(s, d, avail, anc)
            n     == IF WireLen(d) <= avail THEN WireLen(d) ELSE avail
            left  == IF out # << >> /\ ~RestoreAtTop THEN cap          \* the variant restores here
                     ELSE IF ~StRead(d, avail) THEN avail               \* `continue` before buf = buf[:n]
@@ -337,9 +509,11 @@ Handle(s) ==
           /\ hist' = Append(hist, [srv |-> s, d |-> d, out |-> out])
           /\ nsent' = nsent + Len(out)
           /\ blen' = [blen EXCEPT ![<<s, d.tp>>] = left]
-    /\ UNCHANGED <<draft, ninj>>
+          \* only a request that passed every stage reaches handleRequest
+          /\ store' = IF out # << >> THEN [store EXCEPT ![s] = ServeStore(store[s], d, conf[s])] ELSE store
+    /\ UNCHANGED <<draft, ninj, conf>>
 
-Next == ChooseB0 \/ ChooseShape \/ ChooseVia \/ ChooseAddr \/ Inject \/ \E s \in Servers : Handle(s)
+Next == ChooseEnv \/ ChooseB0 \/ ChooseShape \/ ChooseVia \/ ChooseAddr \/ Inject \/ \E s \in Servers : Handle(s)
 Spec == Init /\ [][Next]_vars
 
 (***************************************************************************)
@@ -392,12 +566,28 @@ NeverAnswersReply  == \A k \in DOMAIN hist : NeverAnswersReplyEv(hist[k])
 
 \* History independence: what a listener does with a datagram is a function of
 \* that datagram alone - in particular a datagram it dropped (or served) does
-\* not influence the handling of the next one.  (Together with ReplyIffValid on
-\* histories of several datagrams: a valid request is answered whatever the
-\* listener has seen before.)
+\* not influence the handling of the next one, nor does the state of the
+\* timestamp store, nor what the kernel attaches to the datagram.  (Together
+\* with ReplyIffValid on histories of several datagrams: a valid request is
+\* answered whatever the listener has seen before.  The events of hist range
+\* over every listener configuration, store class and ancillary-data class the
+\* environment produces; the clauses above mention none of them because the
+\* statement does not: "for each UDP payload that is a well-formed client
+\* request", "every reply".)
 HistoryIndependence ==
   \A j, k \in DOMAIN hist :
-    (hist[j].srv = hist[k].srv /\ hist[j].d = hist[k].d) => Len(hist[j].out) = Len(hist[k].out)
+    (hist[j].srv = hist[k].srv /\ Wire(hist[j].d) = Wire(hist[k].d)) => Len(hist[j].out) = Len(hist[k].out)
+\* (not part of the property: sanity of the store abstraction of section 3b)
+StoreSane ==
+  \A s \in Servers :
+    LET st == store[s]
+    IN /\ \A c \in ClientIDs : st.rec[c] \in 0 .. ItemCap
+       /\ st.free \in 0 .. FreeMany
+       /\ {st.lru[i] : i \in DOMAIN st.lru} = {c \in ClientIDs : st.rec[c] > 0}
+       /\ Len(st.lru) = Cardinality({c \in ClientIDs : st.rec[c] > 0})
+\* the receive-timestamp stage lets every datagram pass
+StampNeverDrops == \A a \in AncNames : StStamp(a)
+
 \* Reflection lemma, over the complete first-byte space: whatever valid request
 \* triggered it, the first byte of the reply is not the first byte of a valid request.
 Reflection == \A b \in 0 .. 255 : ValidFirst(b) => ~ValidFirst(ReplyB0)
